@@ -107,7 +107,7 @@ func checkC02(c *Ctx) {
 				}
 			}
 		}
-		c.Check(nAny >= 1 && len(other) == 0, "R2.16", bo.String(), "initial-fields-through-any", bo.Pos(), "Config.InitialFields become fields through zap.Any, so a value set in code (a Duration, a Time, an error, a marshaler) gets the representation its typed constructor gives it (other constructors used: %v)", other)
+		c.Check(nAny >= 1 && len(other) == 0, "R2.16", FStr(bo), "initial-fields-through-any", bo.Pos(), "Config.InitialFields become fields through zap.Any, so a value set in code (a Duration, a Time, an error, a marshaler) gets the representation its typed constructor gives it (other constructors used: %v)", other)
 	}
 	c.Rule("R2.15", "built-in numeric time/duration encoders emit the nanosecond count or its quotient by a constant with a single rounding", 4)
 	c2NumericEncoders(c, "R2.15")
@@ -150,7 +150,7 @@ func c2Entry(c *Ctx) {
 	if !c.Anchor("R2.1", "zapcore.jsonEncoder.EncodeEntry", fn != nil) {
 		return
 	}
-	name := fn.String()
+	name := FStr(fn)
 	// locate sites
 	var sites []emitSite
 	entParam = "ent"
@@ -209,7 +209,7 @@ func c2Entry(c *Ctx) {
 			continue
 		}
 		args := Args(cl)
-		switch f.Name() {
+		switch FNm(f) {
 		case "addKey", "AddTime", "AddString":
 			if len(args) < 2 {
 				continue
@@ -241,7 +241,7 @@ func c2Entry(c *Ctx) {
 				continue
 			}
 			okP := false
-			if f.Name() == "addKey" {
+			if FNm(f) == "addKey" {
 				okP = payloadAfter(cl, payload)
 			} else {
 				okP = bd(args[2]) == payload
@@ -336,15 +336,15 @@ func c2Wrappers(c *Ctx) {
 	ms := c.SSA.MethodSets.MethodSet(types.NewPointer(je))
 	for i := 0; i < ms.Len(); i++ {
 		fn := c.SSA.MethodValue(ms.At(i))
-		if fn == nil || !reW.MatchString(fn.Name()) {
+		if fn == nil || !reW.MatchString(FNm(fn)) {
 			continue
 		}
-		m := reW.FindStringSubmatch(fn.Name())
+		m := reW.FindStringSubmatch(FNm(fn))
 		if m[1] == "Add" && (strings.HasPrefix(m[2], "Float") || strings.HasPrefix(m[2], "Complex")) {
 			continue // AddFloat64 etc. are addKey + AppendX (R1.5)
 		}
 		n++
-		name := fn.String()
+		name := FStr(fn)
 		val := fn.Params[len(fn.Params)-1]
 		var call *ssa.Call
 		k := 0
@@ -373,8 +373,8 @@ func c2Wrappers(c *Ctx) {
 				why = TypeName(val.Type()) + "→" + TypeName(cv.Type())
 			}
 			target := CalleeFunc(call)
-			okT := target != nil && (target.Name() == m[1]+"Int64" || target.Name() == m[1]+"Uint64")
-			c.Check(okc && okT, "R2.2", name, "widens", call.Pos(), "%s widens its argument within the same signedness to 64 bits (%s) and delegates to %s", fn.Name(), why, calleeName(target))
+			okT := target != nil && (FNm(target) == m[1]+"Int64" || FNm(target) == m[1]+"Uint64")
+			c.Check(okc && okT, "R2.2", name, "widens", call.Pos(), "%s widens its argument within the same signedness to 64 bits (%s) and delegates to %s", FNm(fn), why, calleeName(target))
 		case m[2] == "Float32":
 			d := Desc(args[1])
 			bs, _ := ConstInt(args[2])
@@ -395,11 +395,11 @@ func c2Wrappers(c *Ctx) {
 	if c.Anchor("R2.2", "zapcore.jsonEncoder.AddBinary", ab != nil) {
 		ok := false
 		for _, cl := range Calls(ab) {
-			if f := CalleeFunc(cl); f != nil && f.Name() == "AddString" {
+			if f := CalleeFunc(cl); f != nil && FNm(f) == "AddString" {
 				ok = Desc(Args(cl)[2]) == "EncodeToString(StdEncoding, val)" && Desc(Args(cl)[1]) == "key"
 			}
 		}
-		c.Check(ok, "R2.2", ab.String(), "base64-std", ab.Pos(), "binary is emitted as base64.StdEncoding text")
+		c.Check(ok, "R2.2", FStr(ab), "base64-std", ab.Pos(), "binary is emitted as base64.StdEncoding text")
 		n++
 	}
 	if n < 23 {
@@ -420,7 +420,7 @@ func c2Reference(c *Ctx) {
 			if fn == nil || fn.Synthetic != "" && !strings.Contains(fn.Synthetic, "wrapper") {
 				continue
 			}
-			mn := fn.Name()
+			mn := FNm(fn)
 			if !(strings.HasPrefix(mn, "Add") || strings.HasPrefix(mn, "Append")) {
 				continue
 			}
@@ -433,7 +433,7 @@ func c2Reference(c *Ctx) {
 				}
 			}
 			val := fn.Params[len(fn.Params)-1]
-			name := fn.String()
+			name := FStr(fn)
 			n++
 			// the stored value
 			stored, key := c2Stored(fn, 0)
@@ -469,7 +469,7 @@ func c2Reference(c *Ctx) {
 				_, okCur = st.Val.(*ssa.MakeMap)
 			}
 		})
-		c.Check(okReg && okCur, "R2.3", on.String(), "namespace", on.Pos(), "a namespace registers a fresh map under the key and makes it current")
+		c.Check(okReg && okCur, "R2.3", FStr(on), "namespace", on.Pos(), "a namespace registers a fresh map under the key and makes it current")
 	}
 	if n < 40 {
 		c.Bad("R2.3", "reference methods", "count", token.NoPos, "only %d reference-encoder methods found", n)
@@ -537,7 +537,7 @@ func c2UnixNano(c *Ctx) {
 			name := FuncKey(fn)
 			slot := "UnixNano(" + Desc(recv) + ")"
 			// exemptions
-			if fn.String() == "(*go.uber.org/zap/zapcore.counter).IncCheckReset" {
+			if FStr(fn) == "(*go.uber.org/zap/zapcore.counter).IncCheckReset" {
 				c.Triv("R2.5", name, slot, cl.Pos(), "exempt: sampler window arithmetic on the entry time, not a representation of a value (C11)")
 				continue
 			}
@@ -590,7 +590,7 @@ func c2Numbers(c *Ctx) {
 			}
 		}
 		ok = ok && call != nil && mustPass(fn, func(i ssa.Instruction) bool { return i == call }) && len(Calls(fn)) == 1
-		c.Check(ok, "R2.6", fn.String(), "strconv-base10", fn.Pos(), "integers are appended by %s(b.bs, i, 10) on the full-width parameter, on every path, and nothing else", t.std)
+		c.Check(ok, "R2.6", FStr(fn), "strconv-base10", fn.Pos(), "integers are appended by %s(b.bs, i, 10) on the full-width parameter, on every path, and nothing else", t.std)
 	}
 	af := c.Method(bp, "Buffer", "AppendFloat")
 	if c.Anchor("R2.6", bp+".Buffer.AppendFloat", af != nil) {
@@ -606,7 +606,7 @@ func c2Numbers(c *Ctx) {
 			}
 		}
 		ok = ok && call != nil && mustPass(af, func(i ssa.Instruction) bool { return i == call }) && len(Calls(af)) == 1
-		c.Check(ok, "R2.6", af.String(), "shortest-roundtrip", af.Pos(), "floats are appended by strconv.AppendFloat(b.bs, f, 'f', -1, bitSize) on every path (any shortcut formatter loses e.g. the sign of -0)")
+		c.Check(ok, "R2.6", FStr(af), "shortest-roundtrip", af.Pos(), "floats are appended by strconv.AppendFloat(b.bs, f, 'f', -1, bitSize) on every path (any shortcut formatter loses e.g. the sign of -0)")
 	}
 	fl := c.Method(CorePath, "jsonEncoder", "appendFloat")
 	if c.Anchor("R2.6", "zapcore.jsonEncoder.appendFloat", fl != nil) {
@@ -636,17 +636,17 @@ func c2Numbers(c *Ctx) {
 					return ""
 				}
 				f := CalleeFunc(cl)
-				if f == nil || f.Pkg() == nil || f.Pkg().Path() != "go.uber.org/zap/buffer" || !isMutatingBufMethod(f.Name()) {
+				if f == nil || f.Pkg() == nil || f.Pkg().Path() != "go.uber.org/zap/buffer" || !isMutatingBufMethod(FNm(f)) {
 					return ""
 				}
 				a := Args(cl)
-				if f.Name() == "AppendFloat" {
+				if FNm(f) == "AppendFloat" {
 					return "float(" + st.Desc(a[1]) + ")"
 				}
 				if len(a) > 1 {
-					return f.Name() + "(" + st.Desc(a[1]) + ")"
+					return FNm(f) + "(" + st.Desc(a[1]) + ")"
 				}
-				return f.Name()
+				return FNm(f)
 			},
 		})
 		var bad []string
@@ -690,7 +690,7 @@ func c2Numbers(c *Ctx) {
 				}
 			}
 		}
-		c.Check(!trunc && len(bad) == 0 && len(seen) == 3, "R2.6", fl.String(), "specials", fl.Pos(), "explored %d paths: NaN, +Inf and -Inf are each written as their quoted literal and nothing else, and the number formatter runs only for values that failed all three tests (literals seen %d; offending paths %v)", len(seqs), len(seen), bad)
+		c.Check(!trunc && len(bad) == 0 && len(seen) == 3, "R2.6", FStr(fl), "specials", fl.Pos(), "explored %d paths: NaN, +Inf and -Inf are each written as their quoted literal and nothing else, and the number formatter runs only for values that failed all three tests (literals seen %d; offending paths %v)", len(seqs), len(seen), bad)
 
 	}
 }
@@ -700,14 +700,14 @@ func c2ErrorExpansion(c *Ctx) {
 	if !c.Anchor("R2.7", "zapcore.encodeError", fn != nil) {
 		return
 	}
-	name := fn.String()
+	name := FStr(fn)
 	var basic, causes, verbose *ssa.Call
 	for _, cl := range Calls(fn) {
 		call, ok := cl.(*ssa.Call)
 		if !ok || !call.Call.IsInvoke() {
 			continue
 		}
-		switch call.Call.Method.Name() {
+		switch FNm(call.Call.Method) {
 		case "AddString":
 			k := Desc(call.Call.Args[0])
 			if k == "key" {
@@ -732,19 +732,19 @@ func c2ErrorExpansion(c *Ctx) {
 	if c.Anchor("R2.7", "zapcore.errArray.MarshalLogArray", ea != nil) {
 		var app *ssa.Call
 		for _, cl := range CallsDeep(ea) {
-			if cc, ok := cl.(*ssa.Call); ok && cc.Call.IsInvoke() && cc.Call.Method.Name() == "AppendObject" {
+			if cc, ok := cl.(*ssa.Call); ok && cc.Call.IsInvoke() && FNm(cc.Call.Method) == "AppendObject" {
 				app = cc
 			}
 		}
 		ok := app != nil && HasAtom(Guards(app), func(s string) bool {
 			return strings.HasSuffix(s, "!= nil") && strings.HasPrefix(s, PN(ea.Params[0])+"[")
 		})
-		c.Check(ok, "R2.7", ea.String(), "nil-causes-skipped", ea.Pos(), "nil causes are skipped, every other one is appended as an object")
+		c.Check(ok, "R2.7", FStr(ea), "nil-causes-skipped", ea.Pos(), "nil causes are skipped, every other one is appended as an object")
 	}
 	el := c.Method(CorePath, "errArrayElem", "MarshalLogObject")
 	if c.Anchor("R2.7", "zapcore.errArrayElem.MarshalLogObject", el != nil) {
 		for _, r := range Returns(el) {
-			c.Check(Desc(RetVals(r)[0]) == `encodeError("error", e.err, enc)`, "R2.7", el.String(), "cause-object", r.Pos(), "each cause is an object built by encodeError under the key \"error\" (%s)", Desc(RetVals(r)[0]))
+			c.Check(Desc(RetVals(r)[0]) == `encodeError("error", e.err, enc)`, "R2.7", FStr(el), "cause-object", r.Pos(), "each cause is an object built by encodeError under the key \"error\" (%s)", Desc(RetVals(r)[0]))
 		}
 	}
 	// zap.errArray (zap.Errors): same skipping
@@ -752,14 +752,14 @@ func c2ErrorExpansion(c *Ctx) {
 	if c.Anchor("R2.7", "zap.errArray.MarshalLogArray", za != nil) {
 		var app *ssa.Call
 		for _, cl := range CallsDeep(za) {
-			if cc, ok := cl.(*ssa.Call); ok && cc.Call.IsInvoke() && cc.Call.Method.Name() == "AppendObject" {
+			if cc, ok := cl.(*ssa.Call); ok && cc.Call.IsInvoke() && FNm(cc.Call.Method) == "AppendObject" {
 				app = cc
 			}
 		}
 		ok := app != nil && HasAtom(Guards(app), func(s string) bool {
 			return strings.HasSuffix(s, "!= nil") && strings.HasPrefix(s, PN(za.Params[0])+"[")
 		})
-		c.Check(ok, "R2.7", za.String(), "nil-errors-skipped", za.Pos(), "zap.Errors skips nil elements and appends every other one as an object")
+		c.Check(ok, "R2.7", FStr(za), "nil-errors-skipped", za.Pos(), "zap.Errors skips nil elements and appends every other one as an object")
 	}
 }
 
@@ -779,14 +779,14 @@ func c2Reflect(c *Ctx) {
 		for _, r := range Returns(dr) {
 			ok = ok && ne != nil && Strip(RetVals(r)[0]) == ssa.Value(ne)
 		}
-		c.Check(ok, "R2.8", dr.String(), "html-escaping-off", dr.Pos(), "the default reflected encoder is json.NewEncoder(w) with SetEscapeHTML(false)")
+		c.Check(ok, "R2.8", FStr(dr), "html-escaping-off", dr.Pos(), "the default reflected encoder is json.NewEncoder(w) with SetEscapeHTML(false)")
 	}
 	er := c.Method(CorePath, "jsonEncoder", "encodeReflected")
 	if c.Anchor("R2.8", "zapcore.jsonEncoder.encodeReflected", er != nil) {
 		var encode, trim ssa.Instruction
 		for _, cl := range CallsDeep(er) {
 			if f := CalleeFunc(cl); f != nil {
-				switch f.Name() {
+				switch FNm(f) {
 				case "Encode":
 					encode = cl
 				case "TrimNewline":
@@ -811,7 +811,7 @@ func c2Reflect(c *Ctx) {
 				okNull = containsS(AtomStrings(Guards(r)), PN(er.Params[1])+" == nil")
 			}
 		}
-		c.Check(ok && okNull, "R2.8", er.String(), "reset-encode-trim", er.Pos(), "nil short-circuits to null; otherwise the scratch buffer is reset (or freshly allocated), the value encoded, and exactly the trailing newline trimmed")
+		c.Check(ok && okNull, "R2.8", FStr(er), "reset-encode-trim", er.Pos(), "nil short-circuits to null; otherwise the scratch buffer is reset (or freshly allocated), the value encoded, and exactly the trailing newline trimmed")
 	}
 	rr := c.Method(CorePath, "jsonEncoder", "resetReflectBuf")
 	if rr == nil {
@@ -824,7 +824,7 @@ func c2Reflect(c *Ctx) {
 				okReset = containsS(AtomStrings(Guards(cl)), "enc.reflectBuf != nil")
 			}
 		}
-		c.Check(okReset, "R2.8", rr.String(), "resets-existing", rr.Pos(), "an existing scratch buffer is Reset before reuse")
+		c.Check(okReset, "R2.8", FStr(rr), "resets-existing", rr.Pos(), "an existing scratch buffer is Reset before reuse")
 	}
 	tn := c.Method("go.uber.org/zap/buffer", "Buffer", "TrimNewline")
 	if c.Anchor("R2.8", "buffer.Buffer.TrimNewline", tn != nil) {
@@ -834,7 +834,7 @@ func c2Reflect(c *Ctx) {
 			bn := PN(tn.Params[0]) + ".bs"
 			ok = containsS(atoms, bn+"[(len("+bn+") - 1)] == 10") && Desc(st.Instr.Val) == bn+"[:(len("+bn+") - 1)]"
 		}
-		c.Check(ok, "R2.8", tn.String(), "trims-one-newline", tn.Pos(), "TrimNewline removes exactly one trailing '\\n'")
+		c.Check(ok, "R2.8", FStr(tn), "trims-one-newline", tn.Pos(), "TrimNewline removes exactly one trailing '\\n'")
 	}
 }
 
@@ -861,7 +861,7 @@ func c2LevelEncoders(c *Ctx) {
 						case "(go.uber.org/zap/zapcore.Level).CapitalString":
 							return "capital"
 						}
-						if f.Name() == "AppendString" && x.Call.IsInvoke() {
+						if FNm(f) == "AppendString" && x.Call.IsInvoke() {
 							return "emit"
 						}
 					}
@@ -897,7 +897,7 @@ func c2LevelEncoders(c *Ctx) {
 				bad = append(bad, sq)
 			}
 		}
-		c.Check(!trunc && len(seqs) > 0 && len(bad) == 0, "R2.12", fn.String(), "case-agrees", fn.Pos(), "on each of the %d paths (helpers inline) exactly one string is emitted and every source consulted is the %s-case one (Level.String / CapitalString and the matching colour table): %v", len(seqs), want, uniqSorted(bad))
+		c.Check(!trunc && len(seqs) > 0 && len(bad) == 0, "R2.12", FStr(fn), "case-agrees", fn.Pos(), "on each of the %d paths (helpers inline) exactly one string is emitted and every source consulted is the %s-case one (Level.String / CapitalString and the matching colour table): %v", len(seqs), want, uniqSorted(bad))
 	}
 }
 
@@ -920,7 +920,7 @@ func c2TrimmedPath(c *Ctx, rule string) {
 			return 0, false
 		},
 		SliceLenOf: func(d string) (int64, bool) { return int64(N), d == rn+".File" },
-		Inline:     func(h *ssa.Function) bool { return h.Name() != "FullPath" },
+		Inline:     func(h *ssa.Function) bool { return FNm(h) != "FullPath" },
 		Fork: func(in ssa.Instruction, st *ConcState) []ConcAlt {
 			x, ok := in.(*ssa.Call)
 			if !ok {
@@ -964,7 +964,7 @@ func c2TrimmedPath(c *Ctx, rule string) {
 						return "out(?" + st.Desc(a[1]) + ")"
 					}
 				case IsCallTo(x, "strings.Index", "strings.IndexByte", "strings.Split", "strings.SplitN", "strings.Cut", "strings.Count", "path.Base", "path.Dir", "path/filepath.Base", "path/filepath.Dir"):
-					return "search?" + CalleeFunc(x).Name()
+					return "search?" + FNm(CalleeFunc(x))
 				}
 			case *ssa.Return:
 				if f, ok := st.SliceOf(x.Results[0]); ok && f.Key == rn+".File" {
@@ -976,7 +976,7 @@ func c2TrimmedPath(c *Ctx, rule string) {
 		},
 	})
 	if trunc || len(seqs) == 0 {
-		c.Und(rule, fn.String(), "keeps-last-two-elements", fn.Pos(), "path exploration incomplete (%d sequences)", len(seqs))
+		c.Und(rule, FStr(fn), "keeps-last-two-elements", fn.Pos(), "path exploration incomplete (%d sequences)", len(seqs))
 		return
 	}
 	var bad, und []string
@@ -1047,13 +1047,13 @@ func c2TrimmedPath(c *Ctx, rule string) {
 		}
 	}
 	if len(und) > 0 && len(bad) == 0 {
-		c.Und(rule, fn.String(), "keeps-last-two-elements", fn.Pos(), "the file name is taken apart in a way the model does not know: %s", und[0])
+		c.Und(rule, FStr(fn), "keeps-last-two-elements", fn.Pos(), "the file name is taken apart in a way the model does not know: %s", und[0])
 		return
 	}
 	if len(bad) > 2 {
 		bad = append(bad[:2:2], "… "+itoa(len(bad)-2)+" more")
 	}
-	c.Check(len(bad) == 0 && len(worlds) >= 5, rule, fn.String(), "keeps-last-two-elements", fn.Pos(), "over %d paths on a %d-byte file name (every position of the last and of the penultimate '/', or none): the short caller is everything after the penultimate separator, and the whole path when there are fewer than two: %v", len(seqs), N, bad)
+	c.Check(len(bad) == 0 && len(worlds) >= 5, rule, FStr(fn), "keeps-last-two-elements", fn.Pos(), "over %d paths on a %d-byte file name (every position of the last and of the penultimate '/', or none): the short caller is everything after the penultimate separator, and the whole path when there are fewer than two: %v", len(seqs), N, bad)
 }
 
 // c2NumericEncoders: the built-in numeric time and duration encoders emit the documented quantity computed with a
@@ -1153,7 +1153,7 @@ func c2NumericEncoders(c *Ctx, rule string) {
 							return "UnixMilli(t)" // truncates: not the float quotient
 						}
 					}
-					return f.Name() + "(" + recv + ")"
+					return FNm(f) + "(" + recv + ")"
 				}
 			}
 			return "?" + st.Desc(v)
@@ -1161,14 +1161,14 @@ func c2NumericEncoders(c *Ctx, rule string) {
 		seqs, trunc := ConcPaths(fn, ConcCfg{
 			Event: func(in ssa.Instruction, st *ConcState) string {
 				x, ok := in.(*ssa.Call)
-				if !ok || !x.Call.IsInvoke() || !strings.HasPrefix(x.Call.Method.Name(), "Append") || len(x.Call.Args) != 1 {
+				if !ok || !x.Call.IsInvoke() || !strings.HasPrefix(FNm(x.Call.Method), "Append") || len(x.Call.Args) != 1 {
 					return ""
 				}
-				return x.Call.Method.Name() + "(" + norm(st, x.Call.Args[0], 0) + ")"
+				return FNm(x.Call.Method) + "(" + norm(st, x.Call.Args[0], 0) + ")"
 			},
 		})
 		if trunc || len(seqs) == 0 {
-			c.Und(rule, fn.String(), "formula", fn.Pos(), "path exploration incomplete")
+			c.Und(rule, FStr(fn), "formula", fn.Pos(), "path exploration incomplete")
 			continue
 		}
 		n++
@@ -1178,7 +1178,7 @@ func c2NumericEncoders(c *Ctx, rule string) {
 				bad = append(bad, sq)
 			}
 		}
-		c.Check(len(bad) == 0, rule, fn.String(), "formula", fn.Pos(), "on every path the encoder is given %s (n: the 64-bit nanosecond count; one conversion, one division): %v", w, bad)
+		c.Check(len(bad) == 0, rule, FStr(fn), "formula", fn.Pos(), "on every path the encoder is given %s (n: the 64-bit nanosecond count; one conversion, one division): %v", w, bad)
 	}
 	if n < 4 {
 		c.Bad(rule, "numeric encoders", "count", token.NoPos, "expected the built-in numeric time/duration encoders, decided %d", n)
